@@ -162,8 +162,13 @@ class Gen:
 				y = r.random()
 				if y < 0.5:
 					return f'int({self.expr("num", depth - 1)})'
-				if y < 0.9:
+				if y < 0.7:
 					return f"int('{r.choice(['1', '12', '007', '-3', ' 4 '])}')"
+				if y < 0.9:
+					# a second argument of a cast is part of the value: int(text, base)
+					self.features.add('cast:int-base')
+					text, base = r.choice([('10', 16), ('12', 8), ('ff', 16), ('101', 2), ('z', 36), ('-1f', 16), ('77', 10), ('0x1f', 16), ('0x1f', 0)])
+					return f"int('{text}', {base})"
 				return f'int({self.expr("str", depth - 1)})'
 			self.features.add('cast:float')
 			y = r.random()
